@@ -44,6 +44,7 @@ def check(obs):
     rsp_segments = set()
     req_segments = set()
     proposed = {}                 # direction -> proposed window of segment 0
+    client_acked_response = []    # non-empty once the requester has sent a segment-ack for the response
     for f in obs["frames"]:
         a = f.get("apci")
         if a is None:
@@ -66,8 +67,11 @@ def check(obs):
                                       "request APDU of %d octets to a peer whose I-Am says %d (frame %d, %s)" % (L, c["s_apdu"], f["i"], _short_cfg(c))))
                     if a.get("seg") and c["s_seg"] not in ("segmentedReceive", "segmentedBoth"):
                         fails.append(("request-segmented-to-peer-that-cannot-receive:%s" % c["s_seg"], "frame %d (%s)" % (f["i"], _short_cfg(c))))
-            elif a["type"] == 4 and "response" in proposed and a["win"] > proposed["response"]:
-                fails.append(("segack-window-exceeds-proposal:client", "client acks with window %d, the server proposed %d (%s)" % (a["win"], proposed["response"], _short_cfg(c))))
+            elif a["type"] == 4 and "response" in proposed:
+                if (f.get("act") or ("ok",))[0] not in ("drop", "delay"):
+                    client_acked_response.append(f["i"])         # (an ack that was lost or is still under way has told the responder nothing)
+                if a["win"] > proposed["response"]:
+                    fails.append(("segack-window-exceeds-proposal:client", "client acks with window %d, the server proposed %d (%s)" % (a["win"], proposed["response"], _short_cfg(c))))
         elif f["src"] == 2:
             if req_hdr is None:
                 continue
@@ -79,6 +83,10 @@ def check(obs):
                 rsp_segments.add(a["seq"])
                 if a["seq"] == 0:
                     proposed["response"] = a["win"]
+                elif not client_acked_response:
+                    # until the requester has acknowledged the first segment it has not said which window it accepts: only segment 0 may be on its way
+                    fails.append(("response-segments-before-first-ack", "response segment %d (window field %d) sent before any segment-ack of the requester (frame %d, %s)"
+                                  % (a["seq"], a["win"], f["i"], _short_cfg(c))))
                 if not req_hdr["sa"]:
                     fails.append(("response-segmented-without-sa-bit", "frame %d (%s)" % (f["i"], _short_cfg(c))))
                 ms = RA.MAX_SEGS.get(req_hdr["maxsegs"])
@@ -250,6 +258,14 @@ def run_announce_history(ops):
             if sa and addr in said and not said[addr]["can_receive"]:
                 said[addr]["can_receive"] = True          # 'I accept a segmented response' says: I can receive segments
                 stats["upgraded"] += 1
+        elif k == "npdu":
+            # the application knows the largest NPDU the path to that peer carries and notes it in the peer's record
+            rec = iut.app.deviceInfoCache.get_device_info(L.Address(op[1]))
+            if rec is not None:
+                rec.maxNpduLength = op[2]
+                iut.app.deviceInfoCache.update_device_info(rec)
+                if op[1] in said:
+                    said[op[1]]["npdu"] = op[2]
         elif k == "adv":
             lab.run(lab.now + float(op[1]))
             VC.clk.now = max(VC.clk.now, lab.now)
@@ -302,7 +318,7 @@ def run_announce_history(ops):
                 ab = [o for o in iut.app.outcomes[n_out:] if o[1] == "abort" and o[2] == inv]
                 if not ab:
                     fails.append(("hist:nothing-sent-and-no-abort", "%s; a request of %d octets produced neither a frame nor an abort" % (desc, total)))
-                elif total <= v["max_apdu"]:
+                elif total <= v["max_apdu"] and not v.get("npdu"):
                     fails.append(("hist:aborted-although-it-fits", "%s; a request of %d octets was aborted locally (reason %r)" % (desc, total, ab[0][3])))
             elif total > v["max_apdu"] and not v["can_receive"]:
                 pass     # (already reported above as too long or as segmented)
@@ -488,7 +504,8 @@ def run(spec, ctx):
                                                                1400, 1464, 1465, 1466, 1467, 1500, 3000])).map(list)
         preq = st.tuples(st.just("peer-req"), addr, st.booleans(), st.booleans(), st.sampled_from([0, 1, 3, 5])).map(list)
         adv = st.tuples(st.just("adv"), st.sampled_from([0.0, 0.5, 1.1, 1.5, 5.0])).map(list)
-        ctx.for_all(st.lists(st.one_of(iam, iam, iam, send, send, send, preq, adv, adv), min_size=2, max_size=14).map(lambda o: dict(k="announce", ops=o)), spec["n"])
+        npdu = st.tuples(st.just("npdu"), addr, st.sampled_from([60, 200, 501, 1497, 1497, 1497])).map(list)
+        ctx.for_all(st.lists(st.one_of(iam, iam, iam, send, send, send, preq, adv, adv, npdu), min_size=2, max_size=14).map(lambda o: dict(k="announce", ops=o)), spec["n"])
         return
     if spec["kind"] == "caps":
         space = cfg_space(spec["tier"])
